@@ -23,6 +23,7 @@ TECH = {
     'C16': 'order-taint analysis from seeded hash containers with checked sort sanitizer; nondeterminism-source scan; sort-key provenance',
     'C17': 'start/end pairing path rules (closure invocation on every success exit), exhaustiveness vs trait method list, per-variant evaluation of Event helpers',
     'C18': 'error-arm path rules (record, no abort, leads only to inconsistent outcome), Result-discipline scan over resolved call sites',
+    'C20': 'who-consults-which-edges rule on the abort-capable validation queries (session-membership guard on the edge owner), abort-only-under-diagnosis reachability, shared exactness rules',
     'C19': 'static crash-point enumeration: may-unwind calls inside open two-phase protocols, residue table, tolerant-reader rules',
 }
 NOTE = 'Trusted: rustc nightly MIR for the real build flags, the fact extractor, the rule tables; std/hashlink/slotmap semantics. Decides the named structural necessary conditions for all paths of the library code, not the behaviour as a whole unless stated. See DESIGN.md section 3 for what is not decided.'
@@ -53,7 +54,7 @@ manifest = {
         {'name': 'analysis', 'path': '/verif/analysis', 'serves_properties': sorted(PROPS), 'kind_free_text': 'Python rule engine over the MIR facts: CFG reachability with avoidance, provenance, guards, summaries, typestate, abstract evaluation'},
     ],
     'checks': checks,
-    'not_applicable': [{'property_id': 'C20', 'reason': 'whether a recorded edge still describes what its task would do in the current resource state is a runtime fact about user task semantics; no structural clause remains beyond the guards decided under C05-C08 (DESIGN.md section 3, C20)'}],
+    'not_applicable': [],
     'notes': 'Fix commits in /repo (unguarded, message starts with "fix:"): 9e925d7 c95d90f 6a07015 47c37db; see known_findings.txt. Thorough tier = feature matrix x all targets, mutant self-test, clippy cross-reference.',
 }
 json.dump(manifest, open(os.path.join(ROOT, 'MANIFEST.json'), 'w'), indent=1)
